@@ -1040,8 +1040,9 @@ impl<R: std::io::Read + std::io::Seek> FlacChannelReader<R> {
             sample,
         )?;
 
-        // seeking invalidates the current samples consumed
-        self.consumed = 0;
+        // seeking invalidates the current frame,
+        // so mark all of it as consumed
+        self.consumed = self.decoder.buf.pcm_frames();
 
         // needed channel-independent samples
         while sample > pos {
